@@ -119,3 +119,44 @@ func VerifTlsrecKeyedPair(cconn, sconn net.Conn, vers, suiteID uint16, master, c
 	client.handshakeComplete, server.handshakeComplete = true, true
 	return client, server, nil
 }
+
+// VerifTlsrecForgeCBC builds, with the sending half of c (a block-cipher suite), one
+// application-data record whose plaintext is data | MAC(data) | pad, pad given byte by byte by the
+// caller (its last byte is the padding-length byte).  It is a sender that does not use
+// padToBlockSize: the MAC, the CBC object, the explicit IV rule and the sequence counter are the
+// connection's own, sequenced like halfConn.encrypt.  The receiving side is not involved.
+func VerifTlsrecForgeCBC(c *Conn, data, pad, explicitIV []byte) ([]byte, error) {
+	hc := &c.out
+	hc.Lock()
+	defer hc.Unlock()
+	cbc, ok := hc.cipher.(cbcMode)
+	if !ok || hc.mac == nil {
+		return nil, errors.New("verif: not a CBC cipher state")
+	}
+	bs := cbc.BlockSize()
+	hdr := []byte{byte(recordTypeApplicationData), byte(hc.version >> 8), byte(hc.version),
+		byte(len(data) >> 8), byte(len(data))}
+	mac := hc.mac.MAC(nil, hc.seq[0:], hdr, data)
+	var plain []byte
+	plain = append(plain, data...)
+	plain = append(plain, mac...)
+	plain = append(plain, pad...)
+	if len(plain)%bs != 0 {
+		return nil, errors.New("verif: data+MAC+padding is not a whole number of blocks")
+	}
+	var body []byte
+	if hc.version >= VersionTLS11 {
+		if len(explicitIV) != bs {
+			return nil, errors.New("verif: explicit IV of one block needed")
+		}
+		body = append(body, explicitIV...)
+		cbc.SetIV(explicitIV)
+	}
+	enc := make([]byte, len(plain))
+	cbc.CryptBlocks(enc, plain)
+	body = append(body, enc...)
+	hc.incSeq()
+	rec := []byte{byte(recordTypeApplicationData), byte(hc.version >> 8), byte(hc.version),
+		byte(len(body) >> 8), byte(len(body))}
+	return append(rec, body...), nil
+}
